@@ -108,6 +108,9 @@ struct FnSpec {
     /// R12 generic: method name -> prelude helper taking (receiver, argument)
     #[serde(default)]
     method_helpers: BTreeMap<String, String>,
+    /// R12 generic: `RECV.m1().m2()` (both without arguments) -> the template with `{}` replaced by RECV, key "m1.m2"
+    #[serde(default)]
+    chain_helpers: BTreeMap<String, String>,
     /// R15 call-out for a statement tail (see extract_fn)
     #[serde(default)]
     tail_from: String,
@@ -181,6 +184,9 @@ enum Unit {
         /// string to the end (R8 suffix, but processed like a function: R2-R13 apply)
         #[serde(default)]
         stmts_from: String,
+        /// alternative: the inner text of the (nested) block whose first statement starts with this string
+        #[serde(default)]
+        block_from: String,
         /// `impl<'a> JoinOutput<'a>`
         header: String,
         /// text between `fn` and the body: `name<T>(&self, a: A) -> R`
@@ -526,6 +532,13 @@ impl<'a> Rw<'a> {
                 if m.method == "filter_map" && m.args.len() == 1 {
                     return self.try_map_enum_filter_map_unzip(mc, m);
                 }
+                if m.method == "map" && m.args.len() == 1 {
+                    if let syn::Expr::MethodCall(it) = &*m.receiver {
+                        if it.method == "iter" && it.args.is_empty() {
+                            return self.try_iter_map_unzip(mc, m, it);
+                        }
+                    }
+                }
             }
             return self.try_enum_filter_enum_map_unzip(mc);
         }
@@ -701,6 +714,32 @@ impl<'a> Rw<'a> {
     }
 
     /// R13: `X.iter().enumerate().filter_map(F).collect()` -> `for i in 0..X.len() { if let Some(v) = F((i, &X[i])) { out.push(v) } }`
+    /// R13: `X.iter().map(F).unzip()` -> `for i in 0..X.len() { let t = F(&X[i]); a.push(t.0); b.push(t.1) }`; F verbatim
+    fn try_iter_map_unzip(&mut self, mc: &syn::ExprMethodCall, map: &syn::ExprMethodCall, it: &syn::ExprMethodCall) -> bool {
+        let k = self.iter_chain_idx;
+        let ls = match self.spec.iter_loops.get(&k.to_string()).cloned() { Some(l) => l, None => return false };
+        self.iter_chain_idx += 1;
+        let x = &*it.receiver;
+        let (xs, xe) = br(x.span());
+        let (fs, fe) = br(map.args[0].span());
+        let (_, end) = br(mc.span());
+        let mut inv = String::new();
+        if !ls.invariant.is_empty() { inv.push_str(&format!(" invariant {},", ls.invariant.join(", "))); }
+        let dec = if ls.decreases.is_empty() { "__it.len() - __i".to_string() } else { ls.decreases.clone() };
+        let (ta, tb) = match ls.acc_ty.split_once(';') {
+            Some((a, b)) => (format!(": Vec<{}>", a.trim()), format!(": Vec<{}>", b.trim())),
+            None => (String::new(), String::new()),
+        };
+        self.insert_open(xs, "{ let __it = &".to_string());
+        self.replace_range(xe, fs, "; let __f = ".to_string(), "R13-iter-map-unzip");
+        self.replace_range(fe, end, format!(
+            "; let mut __a{} = Vec::new(); let mut __b{} = Vec::new(); let mut __i: usize = 0; while __i < __it.len(){} decreases {}, {{ {} let __t = __f(&__it[__i]); __a.push(__t.0); __b.push(__t.1); {} __i += 1; }} {} (__a, __b) }}",
+            ta, tb, inv, dec, ls.body_prologue, ls.body_epilogue, ls.after), "R13-iter-map-unzip");
+        self.visit_expr(x);
+        self.visit_expr(&map.args[0]);
+        true
+    }
+
     /// R13: `X.iter().map(F).enumerate().filter_map(G).unzip()` -> `for i in 0..X.len() { if let Some(t) = G((i, F(&X[i]))) { a.push(t.0); b.push(t.1) } }`;
     /// F and G stay verbatim closures (their contracts are R7 closure contracts).  `acc_ty` = "A; B": element types.
     fn try_map_enum_filter_map_unzip(&mut self, mc: &syn::ExprMethodCall, fm: &syn::ExprMethodCall) -> bool {
@@ -1593,6 +1632,21 @@ impl<'a, 'ast> Visit<'ast> for Rw<'a> {
     }
 
     fn visit_expr_method_call(&mut self, mc: &'ast syn::ExprMethodCall) {
+        if mc.args.is_empty() && !self.spec.chain_helpers.is_empty() {
+            if let syn::Expr::MethodCall(m1) = &*mc.receiver {
+                if m1.args.is_empty() {
+                    if let Some(t) = self.spec.chain_helpers.get(&format!("{}.{}", m1.method, mc.method)).cloned() {
+                        let (ms, me) = br(mc.span());
+                        let (rs, re) = br(m1.receiver.span());
+                        let (pre, post) = t.split_once("{}").unwrap_or((t.as_str(), ""));
+                        self.replace_range(ms, rs, pre.to_string(), "R12-chain-helper");
+                        self.replace_range(re, me, post.to_string(), "R12-chain-helper");
+                        self.visit_expr(&m1.receiver);
+                        return;
+                    }
+                }
+            }
+        }
         if self.try_iter_chain(mc) {
             return;
         }
@@ -3406,6 +3460,7 @@ fn main() {
                 func,
                 closure,
                 stmts_from,
+                block_from,
                 header,
                 sig,
                 spec,
@@ -3439,7 +3494,31 @@ fn main() {
                                             syn::visit::visit_expr_closure(self, c);
                                         }
                                     }
-                                    if !stmts_from.is_empty() {
+                                    struct FindBlock<'t> {
+                                        text: &'t str,
+                                        from: &'t str,
+                                        out: Option<(usize, usize)>,
+                                    }
+                                    impl<'ast, 't> Visit<'ast> for FindBlock<'t> {
+                                        fn visit_block(&mut self, b: &'ast syn::Block) {
+                                            if self.out.is_none() {
+                                                if let Some(st) = b.stmts.first() {
+                                                    let (ss, _) = br(st.span());
+                                                    if self.text[ss..].starts_with(self.from) {
+                                                        let (_, be) = br(b.span());
+                                                        self.out = Some((ss, be - 1));
+                                                        return;
+                                                    }
+                                                }
+                                            }
+                                            syn::visit::visit_block(self, b);
+                                        }
+                                    }
+                                    if !block_from.is_empty() {
+                                        let mut fb = FindBlock { text: &src.text, from: block_from.as_str(), out: None };
+                                        fb.visit_block(&f.block);
+                                        found = fb.out;
+                                    } else if !stmts_from.is_empty() {
                                         let (_, blk_e) = br(f.block.span());
                                         for st in &f.block.stmts {
                                             let (ss, _) = br(st.span());
